@@ -198,6 +198,7 @@ Proof.
   - unfold ilookup_op. destruct (memZ _ _); intros H; inversion H; subst; [assumption|].
     eapply same_life_rinv; [|exact Hinv]. apply put_sb_same_life; reflexivity.
   - (* register *)
+    destruct (j <? length (owns w))%nat; cbn [check bind]; [|discriminate].
     destruct (register_cb w i k) as [[w1 n]| | |] eqn:E; cbn [bind]; try discriminate.
     pose proof (register_cb_same_life _ _ _ _ _ E) as S1.
     destruct rel.
@@ -208,9 +209,12 @@ Proof.
       eapply same_life_trans; [exact S1|apply set_owner_same_life].
   - destruct (owner_unregister f w j) as [w1| | |] eqn:E; cbn [bind]; try discriminate.
     intros H; inversion H; subst. eapply same_life_rinv; [|exact Hinv]. eapply owner_unregister_same_life; eauto.
-  - destruct (Nat.eqb j j2); intros H; inversion H; subst; [assumption|].
+  - destruct (Nat.eqb j j2); [intros H; inversion H; subst; assumption|].
+    destruct (j <? length (owns w))%nat; cbn [check bind]; [|discriminate].
+    destruct (cb_owner_at w j); intros H; inversion H; subst; [assumption|].
     eapply same_life_rinv; [|exact Hinv]. repeat split.
   - destruct (Nat.eqb j j2); [intros H; inversion H; subst; assumption|].
+    destruct (j <? length (owns w))%nat; cbn [check bind]; [|discriminate].
     destruct rel.
     + destruct (owner_unregister f w j) as [w1| | |] eqn:E; cbn [bind]; try discriminate.
       intros H; inversion H; subst. eapply same_life_rinv; [|exact Hinv].
